@@ -930,6 +930,11 @@ func (w *chanWorld) oracleStep(noFault bool) {
 			}
 		}
 	}
+	// once a Close call has returned the channel is inactive for good: every write entry point tests exactly this
+	if w.closeRetStep >= 0 && w.ch.IsActive() {
+		w.fail("C11", "active-after-close", "IsActive() is true although a Close call has returned: every write entry point passes its closed test again")
+		w.fail("C05", "active-after-close", "IsActive() is true although a Close call has returned")
+	}
 	// C11: calls begun after a Close call had returned
 	if w.closeRetStep >= 0 {
 		for _, op := range ops {
